@@ -30,7 +30,7 @@ DOC = ("length a = 6\nlength b = 7\nstrand s = a b\nX = a( b + ) b*\nY = a b\nst
 
 def fresh():
     objectio.clear_io_objects()
-    for c in ALL:
+    for c in ALL + [D3, S2, M2]:
         clear_singletons(c)
         if hasattr(c, "ID"):
             c.ID = 1
@@ -137,6 +137,54 @@ def failing_ctor(kind, when):
     return {"steps": [kind, when, "exception held"], "what": bad} if bad else None
 
 
+class D3(bc.DomainS): pass            # siblings of D1 / M1 / the base classes' other subclasses
+class S2(bc.StrandS): pass
+class M2(bc.MacrostateS): pass
+
+
+def siblings():
+    """objects of classes none of which derives from the other (and a sub-subclass against its parent's sibling) are
+    distinct objects in distinct registries, yet compare equal and hash equally when name / canonical form agree"""
+    fresh()
+    bad = []
+    def same(kind, x, y):
+        if x is y:
+            bad.append(f"{kind}: {type(x).__name__} and {type(y).__name__} share one object")
+        if not (x == y) or (x != y) or not (y == x) or (y != x):
+            bad.append(f"{kind}: {type(x).__name__}({x.name}) and {type(y).__name__}({y.name}) with the same description do not compare equal")
+        elif hash(x) != hash(y):
+            bad.append(f"{kind}: equal objects of {type(x).__name__} and {type(y).__name__} hash differently")
+        elif len({x, y}) != 1:
+            bad.append(f"{kind}: a set keeps both of two equal objects")
+    held = []
+    for A, B in ((D1, D3), (D2, D3), (D3, D1)):
+        x, y = A("q", 7), B("q", 7)
+        held += [x, y]
+        same("domain", x, y)
+        same("domain", ~x, ~y)
+    d = {cls: [cls("a", 5), cls("b", 6)] for cls in (bc.DomainS,)}
+    a, b = d[bc.DomainS]
+    for A, B in ((C1, C2), (S1, S2)):
+        if A in (S1, S2):
+            x, y = A([a, b], name="k"), B([a, b], name="k")
+        else:
+            x, y = A([a, ~a, "+", b], list("()+."), name="k"), B([b, "+", a, ~a], list(".+()"), name="k")
+        held += [x, y]
+        same("complex" if A is C1 else "strand", x, y)
+    c1 = bc.ComplexS([a, b], list(".."), name="m1")
+    c2 = bc.ComplexS([b, a], list(".."), name="m2")
+    mx, my = M1([c1, c2]), M2([c2, c1])
+    same("macrostate", mx, my)
+    rx, ry = R1([c1], [c2], "open"), R2([c1], [c2], "bind21")
+    r1, r2 = R1([c1, c2], [c2], "bind21"), R2([c2, c1], [c2], "bind21")
+    same("reaction", r1, r2)
+    if rx == ry:
+        bad.append("reactions of different type compare equal")
+    del held, mx, my, rx, ry, r1, r2, c1, c2, a, b, d
+    fresh()
+    return {"steps": ["sibling classes"], "what": bad[:4]} if bad else None
+
+
 def main():
     req = json.load(sys.stdin)
     rng = random.Random(req.get("seed", 0))
@@ -150,6 +198,9 @@ def main():
             r = failing_ctor(kind, when)
             if r:
                 fails.append(r)
+    r = siblings()
+    if r:
+        fails.append(r)
     json.dump({"failures": fails[:10]}, sys.stdout)
 
 main()
